@@ -28,6 +28,7 @@ from .mirjson import callee_of
 
 VIEW_NAMES = {'deref', 'deref_mut', 'as_slice', 'as_mut_slice', 'as_ref', 'as_mut', 'borrow',
               'borrow_mut', 'as_bytes_mut_view__never'}
+TRANSPARENT_WRAPPERS = {'zeroize::Zeroizing::new', 'zeroize::Zeroizing::<Z>::new'}
 # callees that receive `&mut` but are pure views (never write through it)
 NONWRITING = {'deref_mut', 'index_mut', 'as_mut_slice', 'as_mut', 'borrow_mut', 'iter_mut',
               'split_at_mut', 'deref', 'index'}
@@ -81,6 +82,28 @@ def is_refish(ty):
 
 def is_mutref(ty):
     return '&mut' in ty or '*mut' in ty
+
+
+_CARRIER_RX = None
+
+
+def carries_mut(ty):
+    """a value of this type can be used to write through a borrow: `&mut T`, raw `*mut`, or a by-value *carrier* of a
+    mutable borrow (slice::IterMut<'_, T>, ChunksMut, … and any adaptor wrapped around one)"""
+    global _CARRIER_RX
+    if is_mutref(ty):
+        return True
+    if _CARRIER_RX is None:
+        import re
+        _CARRIER_RX = re.compile(r'\b\w*Mut<')
+    return bool(_CARRIER_RX.search(ty))
+
+
+# iterator adaptors/constructors that only re-wrap a carrier, and pulls that hand out the items without running user code
+# (the latter only when no closure is part of the iterator type)
+ITER_REWRAP = {'rev', 'zip', 'into_iter', 'enumerate', 'skip', 'take', 'chain', 'map', 'by_ref', 'peekable', 'step_by',
+               'iter', 'filter', 'take_while', 'skip_while', 'inspect', 'fuse', 'cloned', 'copied'}
+ITER_PULL = {'next', 'next_back', 'nth', 'size_hint', 'len'}
 
 
 class An:
@@ -215,7 +238,7 @@ class An:
                     # a `&mut` result can only be derived from `&mut` arguments (safe code, no interior mutability)
                     only_mut = st['dest_ty'].startswith('&mut ')
                     for a, aty in zip(st['args'], st['arg_tys']):
-                        if is_refish(aty) and (not only_mut or is_mutref(aty)):
+                        if is_refish(aty) and (not only_mut or carries_mut(aty)):
                             out |= self._roots_op(a, _seen)
         if len(_seen) == 1:
             self._roots_memo[l] = out
@@ -237,7 +260,12 @@ class An:
         if k in ('ref', 'rawptr'):
             pl = rv['place']
             if 'deref' not in pl['p']:
-                return {('local', pl['l'])}
+                out = {('local', pl['l'])}
+                # a reference to a local that itself holds borrows (an iterator over a buffer, a `&mut` variable):
+                # what is reachable through it includes what the local points into
+                if is_refish(self.body.local_ty(pl['l'])):
+                    out |= self.roots_local(pl['l'], _seen)
+                return out
             return self.roots_local(pl['l'], _seen)
         if k == 'cast':
             return self._roots_op(rv['op'], _seen)
@@ -247,6 +275,19 @@ class An:
                 out |= self._roots_op(f, _seen)
             return out
         return set()
+
+    def _closure_mut_roots(self, op):
+        """roots of the by-`&mut` captures of a closure value (a call that receives the closure may run it)"""
+        out = set()
+        if op['k'] not in ('copy', 'move') or op['place']['p']:
+            return out
+        for site in self.defs.get(op['place']['l'], []):
+            st = self.stmt_at(site)
+            if st['k'] == 'assign' and st['rv']['k'] == 'aggregate' and st['rv'].get('agg') == 'closure':
+                for f in st['rv']['fields']:
+                    if f['k'] in ('copy', 'move') and carries_mut(self.body.local_ty(f['place']['l'])):
+                        out |= self._roots_op(f, set())
+        return out
 
     def writer_sites(self):
         """{local: [site]} — calls handed a &mut rooted at the local (views excluded), partial
@@ -269,13 +310,22 @@ class An:
                 continue
             c = callee_of(t)
             name = c['name'] if c else None
-            if name in NONWRITING and not (c and ((c.get('resolved') or {}).get('local') or (c.get('local') and not c.get('trait')))):
+            ext = not (c and ((c.get('resolved') or {}).get('local') or (c.get('local') and not c.get('trait'))))
+            if name in NONWRITING and ext:
+                continue
+            if name in ITER_REWRAP and ext and c and c.get('crate') in ('core', 'alloc', 'std'):
+                continue
+            if name in ITER_PULL and ext and c and c.get('crate') in ('core', 'alloc', 'std') and not any('closure' in x for x in t['arg_tys']):
                 continue
             site = self.term_point(bi)
             for a, aty in zip(t['args'], t['arg_tys']):
-                if not is_mutref(aty):
+                if carries_mut(aty):
+                    rs = self._roots_op(a, set())
+                elif 'closure' in aty:
+                    rs = self._closure_mut_roots(a)
+                else:
                     continue
-                for r in self._roots_op(a, set()):
+                for r in rs:
                     if r[0] == 'local':
                         w.setdefault(r[1], []).append(site)
         for l in w:
@@ -470,6 +520,9 @@ class An:
                 # else, this call does not write the local
                 unknown = [x for x, aty in zip(args, st['arg_tys']) if is_mutref(aty) and not (
                     x[0] == 'addr' and x[1][0] in ('local', 'pointee', 'cell', 'promoted')) and x[0] != 'param']
+                # by-value carriers of a mutable borrow (IterMut and adaptors around it) and closures with `&mut` captures:
+                # phase 1 found that they may point into this local; the callee may write through them
+                unknown += [x for x, aty in zip(args, st['arg_tys']) if not is_mutref(aty) and (carries_mut(aty) or 'closure' in aty)]
                 if unknown:
                     out.append((site, None, ('call?', cpath, args, self.callee_info(st)), dom))
         return out
@@ -558,6 +611,9 @@ class An:
         is_local_impl = bool(c.get('local') and not c.get('trait')) or bool(r0.get('local'))
         # --- views
         if name in VIEW_NAMES and len(args) == 1 and not is_local_impl:
+            return args[0]
+        # by-value wrappers of a dependency whose Deref/DerefMut are the identity view (they only add a wipe on drop)
+        if path in TRANSPARENT_WRAPPERS and len(args) == 1:
             return args[0]
         if name in ('index', 'index_mut') and len(args) == 2 and not is_local_impl:
             r = args[1]
